@@ -23,7 +23,23 @@ try:
     rc, out = sh("git apply %s" % patch, wt)
     assert rc == 0, "patch does not apply: " + out
     res["build"] = sh("go build ./...", wt)
-    res["existing_tests"] = sh("go test -vet=off -count=1 %s" % " ".join(pkgs), wt)
+    res["existing_tests"] = sh("go test -vet=off -count=1 -timeout 20m %s" % " ".join(pkgs), wt)
+    if res["existing_tests"][0] != 0:
+        # a package whose own tests fail on the unchanged tree too (services/ja3/crypto/tls): what
+        # counts is the pinned baseline - every test BASELINE.json lists as stable for the touched
+        # packages must still pass
+        stable = set(json.load(open("/root/.vp/BASELINE.json"))["stable_pass"])
+        rc, out = sh("go test -json -vet=off -count=1 -timeout 20m %s" % " ".join(pkgs), wt)
+        passed, mods = set(), set()
+        for line in out.split("\n"):
+            try: ev = json.loads(line)
+            except Exception: continue
+            if ev.get("Package"): mods.add(ev["Package"])
+            if ev.get("Action") == "pass" and ev.get("Test"):
+                passed.add(ev["Package"] + "::" + ev["Test"])
+        missing = sorted(t for t in stable if t.split("::")[0] in mods and t not in passed)
+        res["existing_tests"] = (0 if not missing else 1,
+                                 "pinned stable tests of the touched packages: %d missing %s" % (len(missing), missing[:5]))
     shutil.copy(os.path.join(src, demo), os.path.join(wt, dest))
     res["demo_on_changed"] = sh(run, wt)
     ok = (res["demo_on_clean"][0] == 0 and res["build"][0] == 0 and res["existing_tests"][0] == 0 and res["demo_on_changed"][0] != 0)
